@@ -94,6 +94,10 @@ func (m *DistrStakingMigrate) Execute(ctx sdk.Context, cdc codec.BinaryCodec, fr
 		stakingStore.Delete(delegateIterator.Key())
 		stakingStore.Set(stakingtypes.GetDelegationKey(to.Bytes(), validatorAddr), stakingtypes.MustMarshalDelegation(cdc, info))
 
+		// delegations by validator index
+		stakingStore.Delete(stakingtypes.GetDelegationsByValKey(validatorAddr, from))
+		stakingStore.Set(stakingtypes.GetDelegationsByValKey(validatorAddr, to.Bytes()), []byte{})
+
 		events = append(events,
 			sdk.NewEvent(
 				types.EventTypeMigrateStakingDelegate,
@@ -121,6 +125,9 @@ func (m *DistrStakingMigrate) Execute(ctx sdk.Context, cdc codec.BinaryCodec, fr
 
 		// migrate unbonding queue
 		for _, entry := range ubd.Entries {
+			// unbonding id index points at the record key
+			stakingStore.Set(stakingtypes.GetUnbondingIndexKey(entry.UnbondingId), stakingtypes.GetUBDKey(to.Bytes(), valAddr))
+
 			var ubdFlag bool
 			UBDQueue, err := m.stakingKeeper.GetUBDQueueTimeSlice(ctx, entry.CompletionTime)
 			if err != nil {
@@ -174,6 +181,9 @@ func (m *DistrStakingMigrate) Execute(ctx sdk.Context, cdc codec.BinaryCodec, fr
 
 		// migrate redelegate queue
 		for _, entry := range red.Entries {
+			// unbonding id index points at the record key
+			stakingStore.Set(stakingtypes.GetUnbondingIndexKey(entry.UnbondingId), stakingtypes.GetREDKey(to.Bytes(), valSrcAddr, valDstAddr))
+
 			var redFlag bool
 			redQueue, err := m.stakingKeeper.GetRedelegationQueueTimeSlice(ctx, entry.CompletionTime)
 			if err != nil {
